@@ -309,6 +309,54 @@ def Ctx.opGetMeDesc (c : Ctx) (a : Actor) : Ctx :=
     let nums := if isReader (eff pud) then s!"seq=0 read={pud.readId} recv={max pud.recvId pud.readId} del={max pud.delId t.delId}" else "seq=0 read=0 recv=0 del=0"
     c.emit a.sid s!"meta {tn} desc[acs={acsStr pud.want pud.given} {nums} pub={showTok t.pub} tr=- priv={showTok pud.priv} defacs={showMode t.auth}/{showMode t.anon}]"
 
+/-- the user's subscriptions as `store.Users.GetTopics` returns them: every live subscription, a p2p topic under the other user's
+name, a channel under the `chn` spelling -/
+def World.topicsOf (w : World) (u : Uid) : List (String × SubRow) :=
+  w.store.flatMap (fun r =>
+    (match r.subs.find? (fun s => s.user = u ∧ !s.deleted) with
+      | some s => [(if isP2PKey r.name then ((r.subs.find? (·.user ≠ u)).map (·.user)).getD r.name else r.name, s)]
+      | none => []) ++
+    (match r.csubs.find? (fun s => s.user = u ∧ !s.deleted) with
+      | some s => [("chn:" ++ r.name, s)]
+      | none => []))
+
+/-- one entry of the list of contacts: the modes, the marks (for a reader who is not banned), whether the contact was last
+reported online - shown only if the user's own `me` subscription has presence -, the user's private data -/
+def meSubEntry (t : Topic) (presencer : Bool) (name : String) (s : SubRow) : String :=
+  let sm := s.want &&& s.given
+  let ok : Bool := isReader sm && isJoiner sm
+  let (r, v, d) := if ok then (s.readId, s.recvId, s.delId) else (0, 0, 0)
+  let online : Bool := (match psGet t.perSubs name with | some (o, _) => o | none => false) && presencer
+  let priv := match s.priv with | some p => s!":priv={p}" | none => ""
+  s!"{name}:{showMode s.want}/{showMode s.given}/{showMode sm}:r{r}:v{v}:d{d}{if online then ":on" else ""}{priv}"
+
+/-- {get sub} on `me`: the list of contacts (replyGetSub, TopicCatMe); from a session which is not attached, the user's own
+subscription to `me` (replyOfflineTopicGetSub) -/
+def Ctx.opGetMeSub (c : Ctx) (a : Actor) : Ctx :=
+  let tn := a.uid
+  if !c.w.attached a.sid tn then
+    let (c, ok) := c.call "SubscriptionGet"
+    if !ok then c.emit a.sid (ctrl 500 tn) else
+    match c.w.meSubs.find? (·.user = a.uid) with
+    | none => c.emit a.sid (ctrl 404 tn)
+    | some s =>
+      if s.deleted then c.emit a.sid s!"meta {tn} sub[-:_/_/_:r0:v0:d0:deleted]" else
+      let sm := s.want &&& s.given
+      let (r, v, d) := if isReader sm ∧ isJoiner sm then (s.readId, s.recvId, s.delId) else (0, 0, 0)
+      let priv := match s.priv with | some p => s!":priv={p}" | none => ""
+      c.emit a.sid s!"meta {tn} sub[{a.uid}:{showMode s.want}/{showMode s.given}/{showMode sm}:r{r}:v{v}:d{d}{priv}]"
+  else
+  match c.w.live? tn with
+  | none => c
+  | some t =>
+    let (c, ok) := c.call "TopicsForUser"
+    if !ok then c.emit a.sid (ctrl 500 tn) else
+    let rows := c.w.topicsOf a.uid
+    if rows.isEmpty then c.emit a.sid (ctrl 204 tn " what=sub") else
+    let presencer := isPresencer (eff (t.pud a.uid))
+    let entries := rows.map (fun (n, s) => meSubEntry t presencer n s)
+    c.emit a.sid s!"meta {tn} sub[{" ".intercalate (entries.mergeSort (· ≤ ·))}]"
+
 /-- dispatch (session.go:527-534): a session which is not logged in gets 401 for everything but a {note}, which is dropped -/
 def Ctx.loggedOut (c : Ctx) (sid : Sid) (orig : String) (isNote : Bool) : Ctx :=
   if isNote then c else c.emit sid (ctrl 401 orig)
